@@ -270,7 +270,8 @@ CLAIMED["C09"] = dict(
     text="Lean 4 lemmas the accept-all simulation rests on, for lists of any length: inserting at _get_real_insert_position places "
     "the node at `position` among the children not marked deleted (C09_insert_position_live); a step of _xpath sees exactly the "
     "ghost-free view and with an explicit index selects what the counting evaluator selects there; _join_delete_insert keeps the "
-    "accepted text. PARTIAL: the composition accept(format(L,S)) = patch(L,S) is not proved; the property is decided on every run "
+    "accepted text; one text update end to end at text level (C09_text_update_accept: _make_diff_tags on the modelled diff_main + "
+    "diff_cleanupSemantic of two texts without private-use characters, then undo_string: accepting every wrapper spells the new text). PARTIAL: the composition accept(format(L,S)) = patch(L,S) is not proved; the property is decided on every run "
     "by the accept-all projection of the real output against R. Known findings X1 (text after a comment lost) and X2 (tail of a "
     "deleted / moved node unmarked) are violations of the pinned code that cannot be repaired without editing golden-file tests.",
     note=_XMLNOTE,
@@ -279,7 +280,8 @@ CLAIMED["C09"] = dict(
 )
 CLAIMED["C10"] = dict(
     text="Lean 4 lemmas: _join_delete_insert keeps the rejected text in old-text (C10_join_keeps_both_texts), positions and addressing "
-    "as in C09. PARTIAL: the composition reject(format(L,S)) ~ L is not proved; decided on every run by the reject-all projection of "
+    "as in C09; one text update end to end at text level (C10_text_update_reject: rejecting every wrapper spells the old text). "
+    "PARTIAL: the composition reject(format(L,S)) ~ L is not proved; decided on every run by the reject-all projection of "
     "the real output against L (values of deleted attributes not recorded; annotations decoded for names / values free of ';' ':'). "
     "Known finding X1.",
     note=_XMLNOTE,
